@@ -7,6 +7,10 @@ points (CLI main, cminx.document, Documenter) and - through a persistent helper
 interpreter - another PYTHONHASHSEED.  After every step every page produced so
 far must be byte-identical to the first one produced for that (world, mode,
 relative path).
+
+Replay spec: {"worlds": [{"name", "tree"}], "prefix", "patterns",
+ "ops": [{"op": run|run_file|run_files|run_many|stdout|api|documenter|companion, "w", "f", "loc", "cwd", "abs", "key",
+          "keep_out", "fault", "ws"?}]}
 """
 import atexit
 import json
